@@ -649,7 +649,10 @@ def write_evidence(pid, P, tier, seed, t0, rep, fatal, results=None, extra=None)
         with open(path, "w") as f:
             json.dump(ev, f, indent=1)
         return
-    obls = rep["obligations"]
+    # obligations whose clause is an OPEN FINDING (a recorded defect of the pinned tree, printed as KNOWN-FINDING on every run)
+    # are not part of what this check claims: they are counted and listed separately
+    known_names = set(o["name"] for o, _ in rep["known"])
+    obls = [o for o in rep["obligations"] if o["name"] not in known_names]
     dis = [o for o in obls if o["verdict"] == "unsat"]
     backends = {}
     solver_ms = 0.0
@@ -686,6 +689,7 @@ def write_evidence(pid, P, tier, seed, t0, rep, fatal, results=None, extra=None)
         "abstracted": rep["abstractions"], "abstracted_count": n_abs,
         "known_findings": [{"clause": o["clause"], "site": o.get("src"), "what": k["what"]} for o, k in rep["known"]] +
                           [{"clause": None, "site": k.get("site"), "what": k["what"], "input": k.get("input"), "replay": k.get("canary") or k.get("script")} for k in rep.get("replay_known", [])],
+        "open_finding_obligations": len(known_names),
         "undecided": [{"obligation": o["name"], "verdict": o["verdict"], "desc": o["desc"][:200]} for o in rep["undecided"]] + rep["errors"] + rep["drift"],
         "vacuity_failures": [o["name"] for o in rep["vacuity"]],
         "violating_obligations": [o["name"] for o in rep["violations"]],
